@@ -43,6 +43,7 @@ def run(ctx: Context) -> None:
     ctx.rule(r2_cascade)
     ctx.rule(r3_super_first)
     ctx.rule(r4_constructor_draws)
+    ctx.rule(r4b_captured_generator)
     ctx.rule(r5_sources)
     ctx.rule(r6_parent_seeds)
     ctx.rule(c02.r3_layout)
@@ -266,6 +267,63 @@ def r4_constructor_draws(ctx: Context) -> None:
             ctx.check(a in at_reset, "R4.ctor-draws-reset", f"{c.name}.{a}", f"{c.name}.{a} (drawn at construction) is re-drawn by _set_random_state",
                       f"{c.name}.{a} is drawn from the generator at construction (`{src(s)[:60]}`) but is not re-assigned when the seed is reset: the constructor seed leaks into the run", f, s)
     ctx.floor("R4", "seedable classes with a constructor", n, 12)
+
+
+def r4b_captured_generator(ctx: Context) -> None:
+    """`self.random_generator` is REPLACED by every seed reset.  An object that captured the generator (a frozen scipy distribution whose `random_state`
+    was set to it, an estimator built with it, the generator itself) and is kept in an attribute keeps drawing from the OLD generator after a reseed,
+    unless the attribute is re-built in code reachable from `_set_random_state`."""
+    prog = ctx.prog
+    seedable = prog.find_class("BaseSeedable")
+    n_methods = 0
+    for c in prog.subclasses(seedable, strict=True):
+        srs = prog.lookup_method(c, "_set_random_state")
+        reset_attrs: set[str] = set()
+        if srs is not None:
+            for f in _reachable_in_class(prog, c, srs):
+                for s_ in walk_scope(f.node):
+                    if isinstance(s_, (ast.Assign, ast.AnnAssign)):
+                        tgt = s_.targets[0] if isinstance(s_, ast.Assign) else s_.target
+                        if is_self_attr(tgt, f.self_name):
+                            reset_attrs.add(tgt.attr)  # type: ignore[union-attr]
+        for f in c.methods.values():
+            if f.self_name is None or f.name in ("_set_random_state",):
+                continue
+            n_methods += 1
+            gen = lambda e: any(is_self_attr(x, f.self_name, "random_generator") for x in ast.walk(e))  # noqa: E731
+            tainted: dict[str, ast.AST] = {}
+            changed = True
+            stmts = [s_ for s_ in walk_scope(f.node) if isinstance(s_, (ast.Assign, ast.AnnAssign)) and getattr(s_, "value", None) is not None]
+            while changed:
+                changed = False
+                for s_ in stmts:
+                    tgt = s_.targets[0] if isinstance(s_, ast.Assign) else s_.target
+                    v = s_.value
+                    # x.random_state = self.random_generator  /  x = Something(..., random_state=self.random_generator)  /  x = self.random_generator  /  y = (.., x, ..)
+                    if isinstance(tgt, ast.Attribute) and isinstance(tgt.value, ast.Name) and tgt.value.id != f.self_name and tgt.attr in ("random_state", "rng", "generator", "bit_generator") and gen(v):
+                        if tgt.value.id not in tainted:
+                            tainted[tgt.value.id] = s_
+                            changed = True
+                    elif isinstance(tgt, ast.Name) and tgt.id not in tainted:
+                        holds = (isinstance(v, (ast.Attribute,)) and is_self_attr(v, f.self_name, "random_generator")) or \
+                            (isinstance(v, ast.Call) and any(gen(k.value) for k in v.keywords if k.arg in ("random_state", "rng", "seed", "generator")) and not any(
+                                isinstance(x, ast.Call) and isinstance(x.func, ast.Attribute) and gen(x.func.value) for x in ast.walk(v))) or \
+                            (isinstance(v, (ast.Tuple, ast.List, ast.Dict)) and any(isinstance(x, ast.Name) and x.id in tainted for x in ast.walk(v)))
+                        if holds:
+                            tainted[tgt.id] = s_
+                            changed = True
+            for s_ in stmts:
+                tgt = s_.targets[0] if isinstance(s_, ast.Assign) else s_.target
+                if not is_self_attr(tgt, f.self_name) or tgt.attr in ("random_generator",):  # type: ignore[union-attr]
+                    continue
+                v = s_.value
+                captured = (isinstance(v, ast.Attribute) and is_self_attr(v, f.self_name, "random_generator")) or any(isinstance(x, ast.Name) and x.id in tainted and isinstance(x.ctx, ast.Load) for x in ast.walk(v)) \
+                    or (isinstance(v, ast.Call) and any(gen(k.value) and not isinstance(k.value, ast.Call) for k in v.keywords if k.arg in ("random_state", "rng", "generator")))
+                if captured and tgt.attr not in reset_attrs:  # type: ignore[union-attr]
+                    ctx.fail("R4.captured-generator", f"{c.name}.{f.name}:{tgt.attr}", f"`{src(s_)[:90]}` keeps an object that holds the sampler's CURRENT generator object in self.{tgt.attr}; "  # type: ignore[union-attr]
+                             "a seed reset replaces self.random_generator, so the kept object goes on drawing from the old stream: after re-seeding, draws no longer depend on the new seed alone", f, s_)
+    ctx.floor("R4", "methods of seedable classes scanned for captured generators", n_methods, 40)
+    ctx.ok("R4.captured-generator", "seedable-classes:captured-generator", f"{n_methods} methods: no attribute keeps an object bound to the current generator across a seed reset")
 
 
 def r5_sources(ctx: Context) -> None:
